@@ -351,6 +351,13 @@ def explore(ctx, want):
             agg = ctx.extra.setdefault('ispec_binding', {})
             for kk, vv in st.items():
                 agg[kk] = max(agg.get(kk, 0), vv) if kk == 'max_machine_steps' else agg.get(kk, 0) + vv
+            if want == 'C01':
+                nts = sorted(samp[0]['prods']) if samp else []
+                cjobs = [(c, terms, min(k, 3), (i % 2 == 0), ([nts[-1]] if i % 3 == 0 else None)) for i, c in enumerate(samp)]
+                cs = cleanup_check(ctx, cjobs)
+                cagg = ctx.extra.setdefault('generic_cleanup_ispec', {'trees': 0, 'diffs': 0})
+                cagg['trees'] += cs['trees']
+                cagg['diffs'] += cs['diffs']
         if want in ('C01',):
             # dedupe identical observations (both smart settings usually give the same tree)
             seen = set()
@@ -437,6 +444,72 @@ def internals_job(job):
             p.record = None
     return {'g': {'start': case['start'], 'terms': terms, 'prods': case['prods']}, 'pm': pm,
             'suffix': sorted(p._suffix_symbols), 'table': table, 'runs': runs, 'smart': smart, 'rev': rev}
+
+
+def clean_tree(t):
+    v = t.value
+    if v is None:
+        return {'n': t.name, 'leaf': True, 'none': True, 'v': ''}
+    if isinstance(v, list):
+        return {'n': t.name, 'leaf': False, 'k': [clean_tree(x) for x in v]}
+    return {'n': t.name, 'leaf': True, 'none': False, 'v': str(v)}
+
+
+def cleanup_job(job):
+    """raw and cleaned trees of one grammar (no templates) for LLCleanup.tla"""
+    case, terms, k, smart, keep = job
+    from ak.llparser import ParsingError
+    LLParser = parser_class()
+    pp = {nt: [tuple(a) if a else None for a in alts] for nt, alts in case['prods'].items()}
+    try:
+        p = LLParser(TOK_PLAIN, productions=pp, start_symbol_name=case['start'], smart_factorization=smart,
+                     keep_symbols=set(keep) if keep else None)
+    except Exception:
+        return []
+    pm = {sym: [list(r.production) for r in rules] for sym, rules in p.prods_map.items()}
+    out = []
+    for toks in all_inputs(terms, k):
+        text, _ = render(toks, False)
+        try:
+            raw = p.parse(text, do_cleanup=False)
+            cleaned = p.parse(text)
+        except ParsingError:
+            continue
+        except Exception:
+            continue
+        out.append({'pm': pm, 'suffix': sorted(p._suffix_symbols), 'keep': sorted(set(keep or []) | {case['start']}),
+                    'raw': clean_tree(raw), 'cleaned': clean_tree(cleaned), 'g': case['prods'], 'start': case['start'], 'toks': toks})
+    return out
+
+
+def cleanup_check(ctx, jobs):
+    """growth item: the generic cleanup (squash rules) of real parsers against LLCleanup.tla; differences are DRIFT"""
+    import re as _re
+    cases = [c for part in pmap(cleanup_job, jobs, chunk=50) for c in part]
+    ndiff = 0
+    CH = 20000
+    for off in range(0, len(cases), CH):
+        part = cases[off:off + CH]
+        path = os.path.join(ctx.tmp, 'llcleanup_%d.ndjson' % off)
+        with open(path, 'w') as f:
+            for c in part:
+                f.write(json.dumps({k: c[k] for k in ('pm', 'suffix', 'keep', 'raw', 'cleaned')}) + '\n')
+        r = ctx.tlc('llparser/LLCleanup.tla', 'SPECIFICATION Spec\nCHECK_DEADLOCK FALSE\n', env={'CASES': path}, workers=16, timeout=3600)
+        os.unlink(path)
+        seen = 0
+        for ln in set(r.raw_printed):
+            m = _re.match(r'<<"CLEAN-(OK|DIFF)", (\d+)>>', ln)
+            if m:
+                seen += 1
+                if m.group(1) == 'DIFF':
+                    ndiff += 1
+                    c = part[int(m.group(2)) - 1]
+                    if ndiff <= 3:
+                        ctx.note_drift('generic cleanup differs from LLCleanup: start=%s prods=%s keep=%s tokens=%s cleaned=%s' % (
+                            c['start'], c['g'], c['keep'], c['toks'], json.dumps(c['cleaned'])))
+        if seen != len(part):
+            raise Machinery('LLCleanup gave %d verdicts for %d trees' % (seen, len(part)))
+    return {'trees': len(cases), 'diffs': ndiff}
 
 
 def internals_check(ctx, jobs, what):
